@@ -7,6 +7,7 @@ import JanetModel.Bytecode.VMCallPasses
 import JanetModel.Spec.CallSite
 import JanetModel.Spec.FixedEmit
 import JanetModel.Spec.VariadicEmit
+import JanetModel.Spec.Snapshot
 import JanetModel.Spec.Emit
 import JanetModel.Spec.NilGuard
 import JanetModel.Spec.Operand
@@ -441,10 +442,9 @@ theorem skeleton_opfunction_ok : skeletonOf "opfunction" = Skeleton.opfunction :
 theorem skeleton_can_be_imm_ok : skeletonOf "can_be_imm" = Skeleton.can_be_imm := by decide +kernel
 theorem skeleton_can_slot_be_imm_ok : skeletonOf "can_slot_be_imm" = Skeleton.can_slot_be_imm := by decide +kernel
 theorem skeleton_reduce_target_ok : skeletonOf "reduce_target" = Skeleton.reduce_target := by decide +kernel
-/-- two validated bodies: the pinned one, and the one with patches/fix-C15-opreduce-late-operand-read.diff (operands from the third on that are
-    variables are first copied into fresh slots; the chain emitted afterwards is unchanged) -/
-theorem skeleton_opreduce_ok : skeletonOf "opreduce" = Skeleton.opreduce ∨ skeletonOf "opreduce" = Skeleton.opreduce_snapshot := by
-  decide +kernel
+/-- ONE validated body: the one with the snapshot loop (operands from the third on that are variables are first copied into fresh slots -
+    `Spec.emitOpreduceSnap`, proved in `opreduce_snapshot_chain_computes`); the body without the loop is the known-defective one -/
+theorem skeleton_opreduce_ok : skeletonOf "opreduce" = Skeleton.opreduce := by decide +kernel
 theorem skeleton_compreduce_ok : skeletonOf "compreduce" = Skeleton.compreduce := by decide +kernel
 theorem skeleton_janetc_funopt_ok : skeletonOf "janetc_funopt" = Skeleton.janetc_funopt := by decide +kernel
 theorem skeleton_do_apply_ok : skeletonOf "do_apply" = Skeleton.do_apply := by decide +kernel
@@ -609,6 +609,117 @@ theorem variadic_emitted_eq_generic (T : TupleLaws P) (p : OptRow × CoreFun) (h
       exact hi.symm
     subst this
     exact ⟨gcode, fuel, hd, hf⟩
+
+/-- ★ `(op a0 y x2 x3 ..)` for a variadic arithmetic / bitwise / shift row, operands from the third on possibly `var`s, AS EMITTED SINCE THE
+    SNAPSHOT FIX (`Spec.emitOpreduceSnap`: `movn fresh x` for every MUTABLE operand from the third on, then the chain), run on an interpreter
+    in which EVERY operator-method call of the chain may assign any assignable slot of the running frame (`hv` limited only by `asg`):
+    the instructions compute `m` - the inline model on the operand values AT ENTRY - into the target, and the generic function's REAL
+    bytecode run on those entry values computes the same `m`.  So the inlined form and the call agree although methods assign the
+    operands; no hypothesis restricts what the methods assign among the `var`s.  (`himmune`, `hfresh`: a slot without
+    `JANET_SLOT_MUTABLE` and a fresh temporary are never the destination of an assignment; `hav`: `reduce_target(opts, args, 2)` run
+    AFTER the replacement; `h0 hyb hbelow`: the fresh registers lie above the operands.) -/
+theorem variadic_snapshot_emitted_eq_generic (T : TupleLaws P) (p : OptRow × CoreFun) (hp : p ∈ variadicPairs) (hne : p.1.tagName ≠ "SUBTRACT")
+    (op : Op) (opim : Option Op) (nullary unary : Const) (hh : p.1.handler = .opreduce op opim nullary unary)
+    (hv : P.W → List P.V → List P.V) (asg : Nat → Bool) (hresp : Respects P hv asg)
+    (code : List Instr) (s : List P.V) (pc free t a0 : Nat) (y : RArg) (rest : List MArg)
+    (ht : t < 256) (h0 : a0 < free) (hy : y.ok opim) (hyb : ∀ r, y = .reg r → r < free)
+    (hok : ∀ a ∈ rest, a.plain.ok opim) (hbelow : ∀ r m, MArg.reg r m ∈ rest → r < free)
+    (hav : ∀ r, MArg.reg r false ∈ rest → r ≠ t) (himmune : ∀ r, MArg.reg r false ∈ rest → asg r = false)
+    (hfresh : ∀ k, free ≤ k → k < free + nmut rest → asg k = false ∧ k ≠ t)
+    (h256 : free + nmut rest ≤ 256) (hslots : free + nmut rest ≤ s.length) (hlen : t < s.length)
+    (hat : HasAt code pc (emitOpreduceSnap op opim free t a0 y rest)) :
+    ∃ m, evalInline P p.1 ((⟨s.getD a0 P.nil, none⟩ : Arg P) :: argOf P s y :: rest.map (fun a => argOf P s a.plain)) = some m ∧
+      ComputesH P hv code s pc (nmut rest + (rest.length + 1)) m
+        (fun v s' => s'.length = s.length ∧ s'.getD t P.nil = v ∧
+          ∀ k, asg k = false → k ≠ t → (k < free ∨ free + nmut rest ≤ k) → s'.getD k P.nil = s.getD k P.nil)
+        (pc + (nmut rest + (rest.length + 1))) ∧
+      ∀ w, ∃ gcode fuel, p.2.words.map decode = gcode.map some ∧
+        exec P gcode fuel (frame0 P T (((⟨s.getD a0 P.nil, none⟩ : Arg P) :: argOf P s y ::
+          rest.map (fun a => argOf P s a.plain)).map (·.v))) w = some (m w) := by
+  have hmem : p.1 ∈ optimizers ∧ isVariadic p.1 = true := by
+    simp only [variadicPairs, List.mem_filterMap] at hp
+    obtain ⟨r, hr, hr2⟩ := hp
+    simp only [Option.map_eq_some_iff] at hr2
+    obtain ⟨t', _, rfl⟩ := hr2
+    exact ⟨(List.mem_filter.mp hr).1, (List.mem_filter.mp hr).2⟩
+  have hrow := List.all_eq_true.mp opreduce_rows_ok p.1 hmem.1
+  have hg : (p.1.guard == .always) = true := by
+    have := hmem.2
+    simpa [isVariadic, hh] using this
+  simp only [opreduceRowOk, hh, hg, Bool.not_true, Bool.false_or, Bool.and_eq_true, List.contains_iff_mem] at hrow
+  have hop : IsCallOp op := isCallOp_of_mem op (by simpa using hrow.1)
+  have himm : ∀ oi, opim = some oi → IsCallImm oi := by
+    intro oi ho
+    subst ho
+    have : immBase oi = some op := by simpa [immOk] using hrow.2
+    exact isCallImm_of_base oi op this
+  have hwf : ∀ a ∈ ((⟨s.getD a0 P.nil, none⟩ : Arg P) :: argOf P s y :: rest.map (fun a => argOf P s a.plain)), a.wf P := by
+    have hone : ∀ b : RArg, b.ok opim → (argOf P s b).wf P := by
+      intro b hb i hi
+      cases b with
+      | reg r => simp [argOf] at hi
+      | imm j =>
+        simp only [argOf, Option.some.injEq] at hi
+        subst hi
+        obtain ⟨_, h1, h2⟩ := hb
+        exact ⟨rfl, by simp only [immMin]; omega, by simp only [immMax]; omega⟩
+    intro a ha
+    simp only [List.mem_cons, List.mem_map] at ha
+    rcases ha with rfl | rfl | ⟨b, hb, rfl⟩
+    · intro i hi; cases hi
+    · exact hone y hy
+    · exact hone b.plain (hok b hb)
+  refine ⟨evalOpreduce P opreduceUnarySpecial op opim nullary unary
+    ((⟨s.getD a0 P.nil, none⟩ : Arg P) :: argOf P s y :: rest.map (fun a => argOf P s a.plain)), by simp only [evalInline, hh], ?_, ?_⟩
+  · exact opreduce_snapshot_chain_computes P hv asg hresp opreduceUnarySpecial op opim nullary unary hop himm code s pc free t a0 y rest
+      ht h0 hy hyb hok hbelow hav himmune hfresh h256 hslots hlen hat
+  · intro w
+    obtain ⟨m', gcode, fuel, hi, hd, hf⟩ := inline_eq_generic_bytecode_partial P T p hp hne _ hwf w
+    have : m' = evalOpreduce P opreduceUnarySpecial op opim nullary unary
+        ((⟨s.getD a0 P.nil, none⟩ : Arg P) :: argOf P s y :: rest.map (fun a => argOf P s a.plain)) := by
+      simp only [evalInline, hh, Option.some.injEq] at hi
+      exact hi.symm
+    subst this
+    exact ⟨gcode, fuel, hd, hf⟩
+
+/-- an operator method that assigns the caller's variable in slot 3 (the witness `:*` method has run exactly when the log is `["*"]`) -/
+def Witness.assign3 (w : List String) (s : List Witness.WV) : List Witness.WV := if w = ["*"] then s.set 3 (.n 100) else s
+
+theorem Witness.assign3_respects : Respects Witness.WP Witness.assign3 (fun k => k == 3) := by
+  intro (w : List String) (s : List Witness.WV)
+  show (Witness.assign3 w s).length = s.length ∧
+    ∀ k, (k == 3) = false → (Witness.assign3 w s).getD k Witness.WV.tab = s.getD k Witness.WV.tab
+  unfold Witness.assign3
+  by_cases h : w = ["*"]
+  · rw [if_pos h]
+    refine ⟨List.length_set .., fun k hk => ?_⟩
+    have hk3 : k ≠ 3 := by simpa using hk
+    simp [List.getD, List.getElem?_set_ne (Ne.symm hk3)]
+  · rw [if_neg h]
+    exact ⟨rfl, fun _ _ => rfl⟩
+
+/-- non-vacuity, and the defect the snapshot repairs, inside the model: `(* a0 a1 m)` with `m` a `var` in slot 3, `a0` a table whose `:*`
+    method assigns `m := 100`.  The emitted code is `movn 4 3; mul 5 0 1; mul 5 5 4` and computes `1 * 7` (the value `m` had at entry, as
+    the call `(apply * [a0 a1 m])` would); the body WITHOUT the snapshot loop (`mul 5 0 1; mul 5 5 3`) computes `1 * 100` under the same
+    method - and with the oracle that assigns nothing both give 7. -/
+example : emitOpreduceSnap .multiply (some .multiplyImmediate) 4 5 0 (.reg 1) [.reg 3 true] =
+      [mkAE .moveNear 4 3, mkABC .multiply 5 0 1, mkABC .multiply 5 5 4] ∧
+    execH Witness.WP Witness.assign3 [mkAE .moveNear 4 3, mkABC .multiply 5 0 1, mkABC .multiply 5 5 4, mkD .return 5] 6
+      ⟨[Witness.WV.tab, .n 2, .n 7, .n 7, .n 0, .n 0], 0⟩ [] = some (.ok (.n 7), ["*"]) ∧
+    execH Witness.WP Witness.assign3 [mkABC .multiply 5 0 1, mkABC .multiply 5 5 3, mkD .return 5] 6
+      ⟨[Witness.WV.tab, .n 2, .n 7, .n 7, .n 0, .n 0], 0⟩ [] = some (.ok (.n 100), ["*"]) ∧
+    execH Witness.WP (fun _ s => s) [mkABC .multiply 5 0 1, mkABC .multiply 5 5 3, mkD .return 5] 6
+      ⟨[Witness.WV.tab, .n 2, .n 7, .n 7, .n 0, .n 0], 0⟩ [] = some (.ok (.n 7), ["*"]) :=
+  ⟨rfl, rfl, rfl, rfl⟩
+
+/-- the hypotheses of `opreduce_snapshot_chain_computes` hold of that example (target 5, fresh register 4, assignable slot 3) -/
+example : (∀ k, 4 ≤ k → k < 4 + nmut [MArg.reg 3 true] → ((fun k => k == 3) k = false ∧ k ≠ 5)) ∧
+    (∀ r, MArg.reg r false ∈ [MArg.reg 3 true] → r ≠ 5) ∧ IsCallOp .multiply ∧ IsCallImm .multiplyImmediate := by
+  refine ⟨fun k h1 h2 => ?_, fun r h => by simp at h, ⟨rfl, rfl, rfl⟩, ⟨rfl, .multiply, rfl⟩⟩
+  simp only [nmut] at h2
+  have : k = 4 := by omega
+  subst this
+  decide
 
 /-- ★ `(cmp a r1 .. r(n-2) last)` for a variadic comparison row (< > <= >= = not=): the INSTRUCTIONS `compreduce` emits
     (`Spec.emitCompreduceCode`: a comparison into the target register per neighbouring pair, a conditional jump to the end after each but
